@@ -27,11 +27,17 @@ def kwKeyS : KwKey → String
 
 def flag (j : Json) (k : String) : Bool := (getBool j k).toOption.getD false
 
-/-- `{"k": "cls", "base": bool} | {"k": "fn", "async": bool, "ap": bool} | {"k": "json"} | {"k": "assign"} | {"k": "other"}` -/
+def strListOf (j : Json) (k : String) : List Str :=
+  match j.getObjVal? k with
+  | .ok (.arr a) => a.toList.filterMap (fun x => match x with | .str s => some s.toList | _ => Option.none)
+  | _ => []
+
+/-- `{"k": "cls", "base_ids": [..]} | {"k": "fn", "async": bool, "args": [..]} | {"k": "json"} | {"k": "assign"} | {"k": "other"}`
+    (the older flags `"base": bool`, `"ap": bool` are still read) -/
 def nodeOf (j : Json) : Except String NodeKind := do
   match (← getStr j "k") with
-  | "cls" => pure (.cls (flag j "base"))
-  | "fn" => pure (.fn (flag j "async") (flag j "ap"))
+  | "cls" => pure (.cls (strListOf j "base_ids" ++ (if flag j "base" then [baseName] else [])))
+  | "fn" => pure (.fn (flag j "async") (strListOf j "args" ++ (if flag j "ap" then [argumentParserName] else [])))
   | "json" => pure .json
   | "assign" => pure .assign
   | _ => pure .otherStmt
